@@ -1,3 +1,4 @@
+import BalmProofs.SymHyp
 import Balm
 import BalmProofs.AttrTest
 import BalmProofs.Bfs
